@@ -13,6 +13,11 @@ under a uniform source, and the forced hypothesis of `rr_cycle_exact` (the uint6
   instances of one definition.
 * `weighA_nonneg` / `weighF64_nonneg`, `weighA_keeps_fields`: what survives rounding for *every* monotone-at-0
   arithmetic, float64 included: effective weights are never negative, only `weight` is written.
+* `fixed_honoured_as_coded`, `dynamic_share_equal_as_coded`: sentence 1 where it holds without any rounding error.
+* `slotCountA_pos/zero/nonneg`, `ring_as_coded`, `ring_f64`, `every_route_as_coded`, `every_route_f64`: slots and
+  ring for the code as coded, carried through the route commands to every route of every float64 table.
+* `roundF64_error`, `slot_error_f64`, `rr_share_f64`: half-ulp bound of the float64 rounding, the slot resolution
+  in float64, and the round-robin share sentence end to end for the float64 table.
 * `rnd_uniform_share`, `rnd_share`: the random picker.
 * `rr_cycle_not_exact_across_wrap`: the excluded point of `rr_cycle_exact`.
 -/
